@@ -116,8 +116,8 @@ impl<'a> Decoder<'a> {
             FALSE_TAG => Ok(Value::Bool(false)),
             STRING_TAG => {
                 let offset = jentry.length as usize;
-                let string = &self.buf.get(..offset).ok_or(Error::InvalidUtf8)?;
-                let s = unsafe { std::str::from_utf8_unchecked(string) };
+                let string = self.buf.get(..offset).ok_or(Error::InvalidUtf8)?;
+                let s = std::str::from_utf8(string)?;
                 self.buf = &self.buf[offset..];
                 Ok(Value::String(Cow::Borrowed(s)))
             }
